@@ -34,7 +34,14 @@ BUDGET_PER_KIB = 2000000
 CERTAIN = {'illegal-string-escape', 'illegal-uri-escape', 'bad-unicode-escape'}
 
 _steps = [0]
+_limit = [float('inf')]
+_overrun = [False]
 _tool = None
+
+
+class StepBudgetExceeded(BaseException):
+    """Raised from the PY_START callback into a parse that has used up its logical step budget, so that a parse which
+    would not terminate in practice is cut short and *reported* instead of hitting the wall-clock watchdog."""
 
 
 def meter_on():
@@ -50,6 +57,10 @@ def meter_on():
 
     def on_start(code, offset):
         _steps[0] += 1
+        if _steps[0] > _limit[0]:
+            _overrun[0] = True
+            _limit[0] = float('inf')        # let the unwinding code run
+            raise StepBudgetExceeded()
     mon.register_callback(_tool, mon.events.PY_START, on_start)
     mon.set_events(_tool, mon.events.PY_START)
 
@@ -133,6 +144,9 @@ class Judge(object):
         ctx.case(text)
         ctx.count('inputs')
         _steps[0] = 0
+        _overrun[0] = False
+        budget = BUDGET_PER_KIB * (1 + len(text) // 1024)
+        _limit[0] = budget
         outcome = None
         try:
             res = hszinc.parse(text, mode=hs.ZINC, single=False)
@@ -152,16 +166,34 @@ class Judge(object):
                               'ZincParseException is not a ValueError', {'text': D._enc_s(text)})
             cause = type(e.__context__).__name__ if e.__context__ is not None else 'none'
             ctx.cls('converted-from', cause)
+        except StepBudgetExceeded:
+            outcome = 'rejected'
         except BaseException as e:    # noqa - anything else escaping is the violation
             outcome = 'crash'
             ctx.violation({'part': 'mutation', 'format': 'zinc', 'kind': 'exception-type', 'symptom': 'escaped:' + type(e).__name__,
                            'features': ['how=' + how]},
                           'parse() let %s escape: %s | input %r' % (type(e).__name__, str(e)[:120], text[:200]),
                           {'text': D._enc_s(text)})
+        _limit[0] = float('inf')
         steps = _steps[0]
         self.max_steps = max(self.max_steps, steps)
-        budget = BUDGET_PER_KIB * (1 + len(text) // 1024)
-        if steps > budget:
+        if outcome in ('parsed', 'rejected') and not _overrun[0] and ('\n\n' in text or '\n\r\n' in text):
+            # (only documents that can hold several grids are concerned)
+            # the default single=True returns the first grid only, but the whole document must still be well-formed:
+            # acceptance may not depend on the flag
+            try:
+                hszinc.parse(text, mode=hs.ZINC, single=True)
+                o1 = 'parsed'
+            except self.ZPE:
+                o1 = 'rejected'
+            except BaseException as e:    # noqa
+                o1 = 'crash:' + type(e).__name__
+            ctx.count('single=True / single=False acceptance compared')
+            if o1 != outcome:
+                ctx.violation({'part': 'mutation', 'format': 'zinc', 'kind': 'single-flag', 'symptom': 'acceptance-depends-on-single:' + o1,
+                               'features': ['how=' + how.split(':')[0]]},
+                              'single=False: %s, single=True: %s for %r' % (outcome, o1, text[:250]), {'text': D._enc_s(text)})
+        if steps > budget or _overrun[0]:
             ctx.violation({'part': 'mutation', 'format': 'zinc', 'kind': 'termination', 'symptom': 'step-budget-overrun', 'features': ['how=' + how]},
                           '%d function entries for %d characters (budget %d)' % (steps, len(text), budget), {'text': D._enc_s(text)})
         ctx.count('outcome: ' + outcome)
@@ -359,6 +391,13 @@ def run_shard(spec, ctx):
             if r.random() < 0.6:
                 t = 'ver:"%s"' % r.choice(['2.0', '3.0', '3', '9.9']) + r.choice(['\n', ' ', '']) + t
             J.feed(t, 'random')
+        if spec['sub'] == 0:
+            # deep nesting (beyond the depth-3 corpus): the parser may give up, but only with ZincParseException,
+            # and within the logical step budget
+            for n in (6, 10, 20, 60, 150, 400):
+                for opener, closer in (('[', ']'), ('{a:', '}'), ('<<ver:"3.0"\na\n', '\n>>')):
+                    J.feed('ver:"3.0"\na\n' + opener * n + '1' + closer * n + '\n', 'deep-nesting')
+                    J.feed('ver:"3.0"\na\n' + opener * n + '\n', 'deep-nesting')
         ctx.sample({'random_input': t})
     else:
         scalar_part(ctx, hszinc, spec)
